@@ -56,10 +56,12 @@ def rule_declarations(ctx):
         ev2.function(b)
         return [o[2] for o in ev2.out if o[2][0] == "write" and o[2][1].startswith("tff(predicate_") and not [c for c in o[0] if c[0][0] != "arm"]]
     norm = lambda t: re.sub(r"\{\w*\}", "{}", t)
-    z, p2 = declared(0), declared(2)
-    inp2 = ("call", "Itertools::intersperse", (("call", "iter::repeat_n", (("lit", "general"), ("lit", 2))), ("lit", " * ")))
-    ok = len(z) == 1 and len(p2) == 1 and norm(z[0][1]) == "tff(predicate_{}, type, {}: $o).\n" and z[0][2] == (("param", "$i"), ("param", "$sym")) and \
-        norm(p2[0][1]) == "tff(predicate_{}, type, {}: ({}) > $o).\n" and p2[0][2] == (("param", "$i"), ("param", "$sym"), inp2)
+    z = declared(0)
+    ok = len(z) == 1 and norm(z[0][1]) == "tff(predicate_{}, type, {}: $o).\n" and z[0][2] == (("param", "$i"), ("param", "$sym"))
+    for n_ in (1, 2, 3):
+        pn = declared(n_)
+        inp = ("call", "Itertools::intersperse", (("call", "iter::repeat_n", (("lit", "general"), ("lit", n_))), ("lit", " * ")))
+        ok = ok and len(pn) == 1 and norm(pn[0][1]) == "tff(predicate_{}, type, {}: ({}) > $o).\n" and pn[0][2] == (("param", "$i"), ("param", "$sym"), inp)
     # the loop runs over enumerate(self.predicates())
     ev3 = sym.Eval(fx, inline_depth=0)
     ev3.function(b)
